@@ -1133,7 +1133,9 @@ def doc_layer(res, rng, tier, known, replay_project):
         for cls, loc, detail in todo:
             class_count[str(cls)] = class_count.get(str(cls), 0) + 1
             if cls is not None and cls in known:
-                res.known(known[cls], "%s (documents: 3.0 and 3.1 differ at %s)" % (cls, general_loc(loc)))
+                where = general_loc(loc) if cls in DOC_CLASSES or cls == "ref-write-through" else \
+                    "a parameter / property schema built from a validator string of this class"
+                res.known(known[cls], "%s (documents: 3.0 and 3.1 differ at %s)" % (cls, where))
             else:
                 unexplained.append((cls, loc, detail))
         if unexplained and reported < 2:
